@@ -10,14 +10,16 @@ from vf.gen import pick_weighted
 from props.C37 import World, gen_world, finish_case, coq_store, CaseWorld, reach, ancestors
 
 ID = "C36"
-THEOREMS = ["C36_flush_constants", "C36_refspec_roundtrip", "C36_terminates", "C36_wants_cover", "C36_ref_update", "C36_prune_only_stale", "C36_complete", "C36_shallow_partial", "C36_shallow_eq_refuted"]
+THEOREMS = ["C36_flush_constants", "C36_refspec_roundtrip", "C36_terminates", "C36_wants_cover", "C36_ref_update", "C36_prune_only_stale", "C36_complete", "C36_v2_deepen_covers", "C36_v2_plain_covers", "C36_shallow_partial", "C36_shallow_eq_refuted"]
 MODEL_FILES = ["RefSpec.v", "RevList.v", "PushRules.v", "FetchProto.v"]
 MODELLED = ("remote.go Remote.fetch reference logic: referenceStorageFromRefs, calculateRefs/doCalculateRefs (wildcard, "
             "exact-hash and short-name sources through ExpandRef, symbolic references), getWants, pruneRemotes, "
             "updateLocalReferenceStorage (tag / fast-forward / force rules, isFastForward), buildFetchedTags, the up-to-date "
             "verdict; plumbing/transport/negotiate.go NegotiatePack round loop (batches, nextFlush, inVein/maxInVein, "
             "gotContinue/gotReady, sendDoneAfterReady, stateless common re-sending, applyServerACKs) against any "
-            "acknowledgement table; plumbing/transport/upload_pack.go getShallowCommits (Model/FetchProto.v, Model/RefSpec.v). "
+            "acknowledgement table; plumbing/transport/upload_pack.go getShallowCommits and serveFetchV2's selection (grafting boundary: "
+            "client's old shallow commits vs the new boundary of a deepen, empty = full history; new view minus client view; "
+            "shallow-info / unshallowedCommits) with the client's updateShallow (Model/FetchProto.v, Model/RefSpec.v). "
             "Exercised, not modelled: getHaves, the pkt-line codecs (C34/C35), the v0/v1/v2 servers (UploadPack, serveFetchV2), "
             "the file transport, spawned git upload-pack / go-git serving a git client, pack encoding and indexing. "
             "Not exercised: git://, http(s) and ssh sockets (no network in the sandbox)")
@@ -31,6 +33,8 @@ TRUSTED = [
     "C-impl refs: Remote.FetchContext through a scripted transport (client.WithTransport) that hands over every server object vs Model/FetchProto.fetch: verdict, wants, final local references",
     "C-impl neg: transport.NegotiatePack against a scripted server (acknowledgement table) vs Model/FetchProto.negotiate: the have batches, done flags, request re-sending of every round",
     "C-impl shallow: transport.getShallowCommits (verif export) vs Model/FetchProto.shallow_walk; spec = minimum-distance boundary (what git clone --depth leaves in .git/shallow, checked in suite wire)",
+    "C-impl v2serve: the go-git upload-pack server reached through the in-process file transport (StreamSession.Fetch, protocol v2) by a client store that is fresh, partial or already shallow, depth none / below / exactly / beyond the root / unshallow, vs Model/FetchProto.serve_fetch_v2 + update_shallow: objects gained, shallow list afterwards; oracle: everything reachable from the wants and the old haves down to the new shallow list is held",
+    "suite deepen: already-shallow clients (depth 1..3; git and go-git) deepening to below / exactly / beyond the root and unshallow against the go-git server v0 and v2, vs git <-> git: fsck --connectivity-only, rev-list --count --all, shallow file",
     "suite wire: go-git client <-> go-git server (file transport, protocol v0 and v2), go-git client <-> git upload-pack (spawned), git client <-> go-git server (git fetch --upload-pack), against the git <-> git outcome: git for-each-ref, git fsck --connectivity-only, .git/shallow",
 ]
 ASSUMPTIONS = [
@@ -213,7 +217,7 @@ class Refs(Suite):
     name = "refs"
     go_cmd = "c36"
     coq_imports = "From GoGit Require Import Model.RefSpec Model.RevList Model.PushRules Model.FetchProto."
-    quick_n = 130
+    quick_n = 110
     thorough_n = 2000
     coq_chunk = 90
     BUCKETS = [(5, "random"), (2, "prune"), (1, "hash"), (1, "invalid"), (2, "shallow")]
@@ -548,7 +552,7 @@ class Wire(Suite):
     reference and every other pairing through the harness / the git binary, and compares the client repositories."""
     name = "wire"
     go_cmd = "c36"
-    quick_n = 3
+    quick_n = 2
     thorough_n = 30
 
     def gen(self, rng, n, tier):
@@ -700,6 +704,251 @@ class Wire(Suite):
         return dict(getattr(self, "stats", {}))
 
 
-SUITES = [Refs(), Neg(), Shallow(), Wire()]
+# ================================================================== suite deepen (wire)
+
+UNSHALLOW = 2147483647          # git fetch --unshallow asks for this depth
+
+
+class Deepen(Suite):
+    """an ALREADY SHALLOW client deepens: prior depth 1..3 x new depth {below the root, exactly the root, beyond the
+    root, unshallow} x client {go-git, git} x go-git server {v0, v2}, against what git <-> git leaves.  After a fetch that
+    reports success every commit reachable from the fetched references down to the recorded shallow boundary must be
+    present (git fsck --connectivity-only), the number of commits must be git's (git rev-list --count --all) and the
+    shallow file must be git's."""
+    name = "deepen"
+    go_cmd = "c36"
+    quick_n = 4
+    thorough_n = 72
+
+    KEY = [("git", 2, "root"), ("gogit", 2, "max"), ("git", 2, "beyond"), ("gogit", 2, "root"), ("git", 2, "max"), ("gogit", 2, "beyond")]
+
+    def gen(self, rng, n, tier):
+        cases = []
+        for k in range(n):
+            if k < len(self.KEY):          # the combinations that reach the root against the v2 server: in every run
+                client, proto, deepen = self.KEY[k]
+            else:
+                client, proto, deepen = rng.choice(["git", "gogit"]), rng.choice([0, 2]), rng.choice(["below", "root", "beyond", "max"])
+            cases.append({"op": "noop", "bucket": "%s-v%d-%s" % (client, proto, deepen), "client": client, "proto": proto,
+                          "deepen": deepen, "prior": rng.choice([1, 1, 2, 3]), "length": rng.choice([4, 4, 5, 6]),
+                          "shape": pick_weighted(rng, [(4, "chain"), (1, "side"), (1, "merge")]), "seed": rng.randrange(1 << 30)})
+        return cases
+
+    def oracle(self, ctx, cases, impl, model):
+        import random
+        fails = {}
+        self.stats = {"deepen_run": 0, "deepen_compared": 0, "deepen_client_failures": 0}
+        bin_ = os.path.join(HARNESS, "bin", "c36")
+        for c in cases:
+            if c.get("op") != "noop":
+                continue
+            root = os.path.join(ctx.tmp, "deepen-%s" % c["id"])
+            os.makedirs(root)
+            try:
+                why = self._run(c, random.Random(c["seed"]), bin_, root)
+            finally:
+                shutil.rmtree(root, ignore_errors=True)
+            if why:
+                fails[c["id"]] = why
+        return fails
+
+    def _run(self, c, rng, bin_, root):
+        w = World()
+        commits = []
+        n = c["length"]
+        for k in range(n):
+            t = w.tree([(b"f", "file", w.blob(b"v%d\n" % k)), (b"g", "file", w.blob(b"g%d\n" % (k // 2)))])
+            commits.append(w.commit(t, [commits[-1]] if commits else [], 1000 + 10 * k, b"c%d" % k))
+        refs = [("refs/heads/main", commits[-1])]
+        if c["shape"] == "side":
+            refs.append(("refs/heads/old", commits[max(0, n - 3)]))
+        elif c["shape"] == "merge" and n >= 4:
+            side = w.commit(w.tree([(b"s", "file", w.blob(b"side\n"))]), [commits[1]], 1005, b"side")
+            m = w.commit(w.get(commits[-1])["abs"][1], [commits[-1], side], 1000 + 10 * n, b"merge")
+            commits.append(m)
+            refs = [("refs/heads/main", m)]
+        srv = root + "/srv"
+        mkrepo(srv, w, refs)
+        spec = "+refs/heads/*:refs/remotes/origin/*"
+        prior = root + "/prior"
+        mkrepo(prior, w, [], ids=set(), bare=False)
+        git(prior, "fetch", "-q", "--depth=%d" % c["prior"], "file://" + srv, spec)
+        if not repo_state(prior)["shallow"]:
+            return None                    # the prior depth already covers the history: not a shallow client
+        depth_root = n + (1 if c["shape"] == "merge" and n >= 4 else 0)
+        depth = {"below": max(c["prior"] + 1, depth_root - 1), "root": depth_root, "beyond": depth_root + 3, "max": UNSHALLOW}[c["deepen"]]
+
+        def copy(name):
+            d = root + "/" + name
+            shutil.copytree(prior, d)
+            return d
+
+        def full_state(d):
+            st = repo_state(d)
+            st["count"] = git(d, "rev-list", "--count", "--all", ok=False).stdout.decode().strip()
+            return st
+        ref = copy("ref")
+        p = git(ref, "fetch", "-q", "--depth=%d" % depth, "file://" + srv, spec, ok=False)
+        if p.returncode != 0:
+            return None
+        want = full_state(ref)
+        if want["fsck"] != 0:
+            return None
+        d = copy("test")
+        self.stats["deepen_run"] += 1
+        tag = "%s client <- go-git server v%d, prior depth %d, deepen to %s (%s, %d commits, %s)" % (
+            c["client"], c["proto"], c["prior"], c["deepen"], depth, n, c["shape"])
+        if c["client"] == "git":
+            p = git(d, "-c", "protocol.version=%d" % c["proto"], "fetch", "-q", "--depth=%d" % depth,
+                    "--upload-pack=%s serve upload-pack" % bin_, srv, spec, ok=False)
+            if p.returncode != 0:
+                self.stats["deepen_client_failures"] += 1
+                return None                # an unsuccessful fetch is outside the property
+        else:
+            git(d, "config", "protocol.version", str(c["proto"]))
+            case = {"id": 0, "op": "wire", "mode": "fetch", "server": "gogit", "client_dir": d, "server_dir": srv,
+                    "specs": [spec], "depth": depth, "tags": "following"}
+            pr = subprocess.run([bin_], input=(json.dumps(case) + "\n").encode(), stdout=subprocess.PIPE, stderr=subprocess.PIPE, env=ENV, timeout=180)
+            try:
+                rep = json.loads(pr.stdout.decode().splitlines()[0])
+            except Exception:
+                return "%s: no reply (%s)" % (tag, pr.stderr.decode()[-200:])
+            if rep.get("panic"):
+                return "%s: panic %s" % (tag, rep["panic"][:200])
+            if not (rep["out"].startswith("( ok") or "uptodate" in rep["out"]):
+                self.stats["deepen_client_failures"] += 1
+                return None
+        got = full_state(d)
+        self.stats["deepen_compared"] += 1
+        if got["fsck"] != 0:
+            return "%s: history not connected after a successful fetch: %s" % (tag, got["fsck_msg"][-200:].replace("\n", " | "))
+        if [r for r in got["refs"] if r.startswith("refs/remotes/")] != [r for r in want["refs"] if r.startswith("refs/remotes/")]:
+            return "%s: references differ from git's" % tag
+        if got["count"] != want["count"]:
+            return "%s: %s commits reachable, git has %s" % (tag, got["count"], want["count"])
+        if got["shallow"] != want["shallow"]:
+            return "%s: shallow boundary differs from git's: %s vs %s" % (tag, [x[:7] for x in got["shallow"]], [x[:7] for x in want["shallow"]])
+        return None
+
+    def finding_class(self, c, reason, reply):
+        # a merge, or two wanted tips one of which is an ancestor of the other: the path-measured depth of getShallowCommits
+        if c["shape"] in ("merge", "side") and ("shallow boundary differs" in reason or "commits reachable" in reason):
+            return "shallow-boundary"
+        if c["proto"] == 0 and c["client"] == "gogit" and ("not connected" in reason or "commits reachable" in reason
+                                                           or "shallow boundary differs" in reason):
+            return "v0-server-ignores-client-shallow"
+        return None
+
+    def extra(self, ctx, cases, impl, model):
+        return dict(getattr(self, "stats", {}))
+
+
+# ================================================================== suite v2serve
+
+def boundary_of(w, tip, depth):
+    """(shallow commits, commits held) of a client that cloned `tip` with --depth (minimum-distance boundary)"""
+    shl, interior = min_depth_sets(w, [tip], depth)
+    return sorted(c for c in shl if w.get(c)["abs"][2]), shl | interior
+
+
+class V2Serve(Suite):
+    """the go-git upload-pack server (protocol v2, a few v0) serving a client store directly: fresh, partial and ALREADY
+    SHALLOW clients x depth {0, below the root, exactly the root, beyond, unshallow}.  Model: Model/FetchProto.serve_fetch_v2
+    (boundary selection, the two views, shallow-info) + update_shallow."""
+    name = "v2serve"
+    go_cmd = "c36"
+    coq_imports = "From GoGit Require Import Model.RevList Model.FetchProto."
+    quick_n = 50
+    thorough_n = 1200
+    coq_chunk = 35
+
+    def gen(self, rng, n, tier):
+        cases = []
+        for k in range(n):
+            shape = pick_weighted(rng, [(4, "chain"), (2, "random"), (1, "crisscross")])
+            w, commits, tags, _ = gen_world(rng, shape)
+            want = commits[-1] if rng.random() < 0.7 else rng.choice(commits)
+            anc = sorted(ancestors(w, [want]))
+            kind = pick_weighted(rng, [(5, "shallow"), (1, "fresh"), (2, "partial")])
+            csh, have, haves = [], set(), []
+            if kind != "fresh":
+                tip = rng.choice(anc)
+                if kind == "shallow":
+                    csh, held = boundary_of(w, tip, rng.choice([1, 1, 2, 3]))
+                else:
+                    held = ancestors(w, [tip])
+                have = reach(w, sorted(held), set(csh)) if csh else reach(w, [tip])
+                haves = [tip]
+                if rng.random() < 0.2 and len(held) > 1:
+                    haves.append(rng.choice(sorted(held)))
+            dist = {}
+            frontier, d = [want], 1
+            while frontier:
+                nxt = []
+                for c in frontier:
+                    if c not in dist:
+                        dist[c] = d
+                        nxt.extend(w.get(c)["abs"][2])
+                frontier, d = nxt, d + 1
+            root_depth = max(dist.values())
+            mode = pick_weighted(rng, [(2, "none"), (2, "below"), (3, "root"), (2, "beyond"), (2, "max")])
+            depth = {"none": 0, "below": max(1, root_depth - 1), "root": root_depth, "beyond": root_depth + 3, "max": UNSHALLOW}[mode]
+            base = finish_case(w, "%s-%s" % (kind, mode), [], [], csh)
+            cases.append({"op": "v2serve", "bucket": base["bucket"], "objs": base["objs"], "hashes": base["hashes"], "abs": base["abs"],
+                          "client_objs": sorted(have), "shallow": list(csh), "wants": [want], "haves": haves, "depth": depth,
+                          "proto": 0 if rng.random() < 0.12 else 2})
+        return cases
+
+    def show(self, c):
+        return {k: v for k, v in c.items() if k != "objs"}
+
+    def key(self, c):
+        return json.dumps([c["abs"], c["client_objs"], c["shallow"], c["wants"], c["haves"], c["depth"], c["proto"]])
+
+    def nontrivial(self, c):
+        return bool(c["shallow"]) and c["depth"] > 0
+
+    def model_expr(self, c):
+        if c["proto"] != 2:
+            return None
+        ncommit = sum(1 for a in c["abs"] if a[1] == "c")
+        depth = min(c["depth"], ncommit + 5)         # a depth beyond the history behaves like any other: keep the numeral small
+        fuel = 60 + 6 * (ncommit + 2) * (2 ** min(depth, ncommit, 7))
+        have = set(c["client_objs"])
+        client = dict(c)
+        client["abs"] = [a for a in c["abs"] if a[0] in have]
+        return "c36_v2serve %s %s %s %s %s %d %d" % (coq_store(c), coq_store(client), coq_list([coq_N(x) for x in c["wants"]]),
+                                                     coq_list([coq_N(x) for x in c["haves"]]), coq_list([coq_N(x) for x in c["shallow"]]),
+                                                     depth, fuel)
+
+    def oracle(self, ctx, cases, impl, model):
+        """after a successful fetch the client holds every object reachable from the wants, and from what it had,
+        down to the shallow commits it now records"""
+        fails = {}
+        for c in cases:
+            r = impl.get(c["id"])
+            if r is None:
+                fails[c["id"]] = "no reply"
+                continue
+            if r.get("panic") or not r["out"].startswith("( ok"):
+                continue
+            e = sexp(r["out"])
+            gained, shl = {int(x) for x in e[1]}, {int(x) for x in e[2]}
+            w = CaseWorld(c)
+            held = set(c["client_objs"]) | gained
+            need = reach(w, c["wants"] + c["haves"], shl)
+            miss = sorted(need - held)
+            if miss:
+                fails[c["id"]] = "after the fetch (depth %d, client shallow %s -> %s) objects reachable down to the shallow boundary are missing: %s" % (
+                    c["depth"], c["shallow"], sorted(shl), miss[:8])
+        return fails
+
+    def finding_class(self, c, reason, reply):
+        if c["proto"] == 0 and c["shallow"] and "are missing" in reason:
+            return "v0-server-ignores-client-shallow"
+        return None
+
+
+SUITES = [Refs(), Neg(), Shallow(), V2Serve(), Wire(), Deepen()]
 if os.environ.get("C36_SUITES"):          # development aid: run a subset
     SUITES = [s for s in SUITES if s.name in os.environ["C36_SUITES"].split(",")]
